@@ -3,7 +3,7 @@
    lines:  sa <id> <rule> <d> <useParents 0/1> <stable 0/1> limits: i.. pidx: i.. pmap: 0/1.. nidx: i..
    (pidx = loaded multi-indexes, pmap = update map of buildUpdateMap, one row of d flags per loaded point,
     nidx = needed set of the implementation after setSurplusRefinement)
-   prints: ok <id> n=<size> | MISMATCH <id> strategy-selection ... | EXHAUSTED <id> ; finally: agree <n> *)
+   prints: ok <id> n=<size> holes=<0/1: loaded set has missing parents> | MISMATCH <id> strategy-selection ... | EXHAUSTED <id> ; finally: agree <n> *)
 open Common
 open Selall
 
@@ -65,7 +65,10 @@ let () =
                let flag (q : idx) = pmap q O in
                if classic_candidates r limits pts flag <> exp then Printf.printf "MISMATCH %s classic-model-differs-from-general-model\n" id
              end;
-             incr nok; Printf.printf "ok %s n=%d\n" id (List.length impl)
+             incr nok;
+             (* statistics only: is the loaded set hierarchy-incomplete (some existing parent of a loaded point is not loaded)? *)
+             let holes = (lower_sweep r [] pts <> []) in
+             Printf.printf "ok %s n=%d holes=%d\n" id (List.length impl) (if holes then 1 else 0)
            end else begin
              let only_m = List.filter (fun p -> not (List.mem p impl)) iexp and only_i = List.filter (fun p -> not (List.mem p iexp)) impl in
              let cut s = if String.length s > 300 then String.sub s 0 300 ^ "..." else s in
